@@ -17,7 +17,7 @@ CONSTANTS
 INVARIANTS Refines
 CHECK_DEADLOCK FALSE
 """, tag="RadixMC_order")
-    tot = lifelib.run_life(c, [["-mode", "twins", "-n", "300" if thorough else "60"]] * (4 if thorough else 1),
+    tot = lifelib.run_life(c, [["-mode", "twins", "-n", "150" if thorough else "20"]] * (8 if thorough else 3),
                            "two configurations that differ only in order / repetition / letter case / normalisable spelling / safelisted entries answer differently")
     c.cov["rule"] = ("seeded accepted configurations x {two independently re-spelled twins (order, duplicates, header-name case, "
                      "normalisable method spellings, safelisted extras, position of * and Authorization) + EVERY permutation of each "
